@@ -102,6 +102,8 @@ partial def shape? : Sexp → Option Shape
   | .list [.atom "sff"] => some .sff
   | .list [.atom "fsink", l, b, f] => do some (.fsink (← bool? l) (← bool? b) (← flavour? f))
   | .list [.atom "tagger", n, g, c] => do some (.tagger (← tags? n) (← tags? g) (← shape? c))
+  -- (a fifth component is a realisation hint of the harness - how the constructor arguments are supplied; the model's Tagger carries values)
+  | .list [.atom "tagger", n, g, c, _] => do some (.tagger (← tags? n) (← tags? g) (← shape? c))
   | .list [.atom "tfr", c] => (shape? c).map .tfr
   | .list [.atom "e2s", c] => (shape? c).map .e2s
   | .list (.atom "multi" :: cs) => do some (.multi (← cs.mapM shape?))
